@@ -27,6 +27,13 @@ CHECKS = {
         note="Trusts the fake mpi4py as an implementation of MPISem.tla (MPI-3.1 point-to-point ordering and wildcard semantics, non-synchronising bcast/gather); no real MPI is available in the sandbox. Ranks are cooperative threads.",
         ref="DESIGN.md 3.1, 4 C06",
     ),
+    "C18": dict(
+        engine="Reader",
+        technique="TLC model checking of spec/Reader.tla over every scenario (length, chunksize, source kind, Parquet row-group layout, passes) up to the bounds; each scenario replayed on real instrumented sources through Catalog.from_*, recorded requests compared with TLC's expected request sequence and with the C18 predicates",
+        text="Reader.tla models the iteration state of the chunk readers (slice readers, RandomReader, ParquetReader's row-group cache, the extra probe pass) and TLC checks Consecutive/Bounded/OncePerPass/NeverWholeInput/ChunkShapes/PassCount for all lengths 0..6(8) x chunk sizes 1..4(5) x all row-group compositions; it prints the expected request sequence of every scenario. Every scenario is then built as a real data-frame-like object, HDF5, FITS and Parquet file (exactly those row groups) or random generator and run through Catalog.from_dataframe/from_file/from_random, sequentially and on the fake multiprocessing runtime, with requests recorded at the source API; they must equal the model's, and the property predicates are evaluated on the recording itself. Exhaustive over the small parameter space where the failing region (lengths around multiples of the chunk size, row groups vs chunk size) lies.",
+        note="Requests are observed at the API boundary of the source (frame slicing, h5py.Dataset.__getitem__, FITS column slicing, ParquetFile.read_row_group/iter_batches, generator calls); what memory mapping does below that is not observable.",
+        ref="DESIGN.md 3.3, 4 C18",
+    ),
 }
 
 NOT_YET = "machinery for this property is not built yet in this round (planned, see DESIGN.md section 10)"
